@@ -11,7 +11,7 @@
 (* right-hand side of an equality (TLC evaluates LETs lazily and uncached  *)
 (* in action position).                                                    *)
 (***************************************************************************)
-EXTENDS QRProps, WasmOps, FileOps, Json, IOUtils
+EXTENDS QRProps, WasmOps, FileRun, Json, IOUtils
 
 Rec == ndJsonDeserialize(IOEnv.TRACE)
 
